@@ -458,6 +458,18 @@ def writable_by_description_means_writable(ctx):
     no_method = sides_with_fact(acfg, lambda a, tv: not tv and isinstance(a, ast.Call) and dotted(a.func) == 'hasattr' and "'write_'" in src(a))
     guards = [c for c in calls_in(aa.node) if call_attr(c) == 'append' and 'errors' in src(c.func) and set(acfg.node_of(c)) <= (writable & no_method)]
     guards += [x for x in body_walk(aa.node) if isinstance(x, ast.Raise) and set(acfg.ids(x)) and set(acfg.ids(x)) <= (writable & no_method)]
+    if not guards:
+        # the check may live in a helper of _add_accessible - also one that generates the complaints the caller appends to errors
+        for site, h in helper_methods_called(m, aa):
+            hcfg = CFG(h.node, m, h.module)
+            hw = sides_with_fact(hcfg, lambda a, tv: not tv and isinstance(a, ast.Attribute) and a.attr == 'readonly')
+            hn = sides_with_fact(hcfg, lambda a, tv: not tv and isinstance(a, ast.Call) and dotted(a.func) == 'hasattr' and "'write_'" in src(a))
+            reports = [x for x in body_walk(h.node) if (isinstance(x, ast.Raise) or (isinstance(x, ast.Expr) and isinstance(x.value, ast.Yield)) or
+                                                        (isinstance(x, ast.Expr) and isinstance(x.value, ast.Call) and call_attr(x.value) == 'append' and 'errors' in src(x.value.func)))
+                       and set(hcfg.ids(x)) and set(hcfg.ids(x)) <= (hw & hn)]
+            if reports:
+                ctx.analysed(h)
+                guards += reports
     ctx.check(bool(guards), f'{hook.qualname}:a configuration can not describe a parameter as writable that has no write path', gen[0] if gen else hook.node,
               '_add_accessible reports a configuration error for readonly=False without write method',
               f'the write wrapper is generated only `if {src(gen[0].test) if gen else "?"}` (class level) while `readonly` can be set to False per '
